@@ -176,8 +176,10 @@ func r053(c *Ctx, rule string) {
 		return false
 	}
 	nHit := 0
-	for _, ret := range normalReturns(fn) {
-		v := retVal(ret, 0)
+	// (per way of returning: a conflict found by a helper expanded in place arrives merged with that helper's "none")
+	for _, rc := range retCases(fn) {
+		ret := rc.ret
+		v := rc.vals[0]
 		if isNilConst(v) {
 			continue
 		}
@@ -201,7 +203,7 @@ func r053(c *Ctx, rule string) {
 		// conditions: prefix equality with every element of options.PathPrefixes, and name inequality; nothing else
 		var sawPrefixEq, sawNameNeq bool
 		extra := 0
-		for _, ce := range dominatingCondsOtherThanLoop(ret) {
+		for _, ce := range condsOtherThanLoop(rc.conds) {
 			cm, ok := ce.asCmp()
 			if !ok {
 				extra++
